@@ -173,7 +173,7 @@ def split_join_pkg(run, twin=None):
     core.explore(body, on_path)
 
 
-@harness(['C12'], 'supp.util.Source.__init__[mark insertion]', twins=('spec-mark-overwrites-a-char',))
+@harness(['C12', 'C11'], 'supp.util.Source.__init__[mark insertion] / Source.lines', twins=('spec-mark-overwrites-a-char',))
 def source_init_mark(run, twin=None):
     """with a position, the cursor line becomes line[:col] ++ MARK ++ line[col:] and nothing else changes
     (every other line is the same object, the line count only grows by the one empty line the code appends)"""
@@ -249,4 +249,8 @@ def source_init_mark(run, twin=None):
             want = '\n'.join(lines)
             prove('%s-only-the-line-feed-ends-a-line' % label, src.source == want and src.lines == lines,
                   clause='the marked text is the original text with the mark inserted at line %d column %d as the parser counts lines' % pos, path=path)
+            # without a cursor: the line table (which the text searches for def / class names read) has the parser's lines too
+            plain = m.Source(text, 'f.py')
+            prove('%s-unmarked-lines-are-the-parsers-lines' % label, plain.source == text and list(plain.lines) == text.split('\n'),
+                  clause='Source(text).lines == text.split(line feed) [%r]' % (list(plain.lines),), path=path)
     core.explore(lambda: None, lambda p, out: ground(p))
